@@ -34,6 +34,32 @@ func c01nodeseq(cw *caseWriter, tier string, r *rng) {
 		nsRun(cw, cw.tag("n"), g.encode(), c06monitor(cw))
 	}
 	cw.stat("c01_node_sequences", cnt)
+	// directed: the same candidate is granted in two successive terms (its first election failed), with or without a restart in
+	// between, then a RIVAL asks for the later term - the record of the later term must be there to refuse it; and the
+	// mirror image (the rival first). The vote monitors of c06monitor decide.
+	d := 0
+	for _, img := range imgs {
+		for _, restart := range []bool{false, true} {
+			for _, tr := range []bool{false, true} {
+				for _, t := range []uint64{5, 7} {
+					g := *img
+					evs := [][]uint64{evVote(t, 2, 2, 50, 9, tr, 0, nil)}
+					if restart {
+						evs = append(evs, evRestart())
+					}
+					evs = append(evs, evVote(t+1, 2, 2, 50, 9, tr, 0, nil))
+					if restart {
+						evs = append(evs, evRestart())
+					}
+					evs = append(evs, evVote(t+1, 3, 3, 50, 9, true, 0, nil), evVote(t+1, 2, 2, 50, 9, tr, 0, nil), evVote(t+2, 3, 3, 50, 9, true, 0, nil), evVote(t+2, 2, 2, 50, 9, true, 0, nil))
+					g.events = evs
+					nsRun(cw, cw.tag("nd"), g.encode(), c06monitor(cw))
+					d++
+				}
+			}
+		}
+	}
+	cw.stat("c01_directed_revote_sequences", d)
 }
 
 func runC01(cw *caseWriter, tier string, seed uint64) {
